@@ -194,7 +194,13 @@ func (l *Lexer) embeddedCodeToken() token.Token {
 	case ')':
 		return l.rightParenthesesToken()
 	case '"', '\'':
-		return l.newToken(token.STR, l.readString())
+		str, terminated := l.readString()
+
+		if !terminated {
+			return l.newToken(token.ILLEGAL, str)
+		}
+
+		return l.newToken(token.STR, str)
 	case '<':
 		if l.peekChar() == '=' {
 			l.tokenBegins()
@@ -444,7 +450,7 @@ func (l *Lexer) isPotentiallyLong(tok token.TokenType) bool {
 		(tok == token.CONTINUE && l.char == 'I' && l.peekChar() == 'f')
 }
 
-func (l *Lexer) readString() string {
+func (l *Lexer) readString() (string, bool) {
 	quote := l.char
 	result := ""
 
@@ -453,7 +459,7 @@ func (l *Lexer) readString() string {
 
 	if l.char == quote {
 		l.readChar() // skip the last quote
-		return result
+		return result, true
 	}
 
 	pos := l.pos
@@ -468,12 +474,17 @@ func (l *Lexer) readString() string {
 		}
 	}
 
+	// the input ended before the closing quote
+	if l.char != quote {
+		return l.input[pos-1 : l.pos], false
+	}
+
 	result = l.input[pos:l.pos]
 
 	l.readChar() // skip the last quote
 
 	// remove slashes before quotes
-	return strings.ReplaceAll(result, "\\"+string(quote), string(quote))
+	return strings.ReplaceAll(result, "\\"+string(quote), string(quote)), true
 }
 
 func (l *Lexer) readNumber() (string, bool) {
